@@ -51,9 +51,14 @@ class RecordingStream:
       'partial'- readline returns a line fragment without the LF (consumes it)
     """
 
-    def __init__(self, data: bytes, fault_plan=None, rng=None, record_callers=False, budget=None, rtype=None):
+    def __init__(self, data: bytes, fault_plan=None, rng=None, record_callers=False, budget=None, rtype=None,
+                 pauses=None):
         # rtype=bytearray: read()/readline() hand out a fresh bytearray per call instead of bytes
+        # pauses: stream offsets at which ONE read/readline call returns nothing although data follows (a growing
+        #         file / serial timeout at that point); the next call continues normally
         self.rtype = rtype
+        self.pauses = set(pauses or ())
+        self.paused = 0
         self.budget = budget
         self.data = data
         self.pos = 0
@@ -88,6 +93,11 @@ class RecordingStream:
         fault = self.plan.get(seq)
         if n is None or n < 0:
             n = len(self.data) - self.pos
+        if self.pos in self.pauses and not self.dead:
+            self.pauses.discard(self.pos)
+            self.paused += 1
+            self.log.append((seq, "read", off, n, 0, "pause"))
+            return b"" if self.rtype is None else self.rtype(b"")
         if self.dead:
             out = b""
         elif fault == "eof":
@@ -128,6 +138,11 @@ class RecordingStream:
             raise BudgetExceeded(f"{self.calls} read calls > budget {self.budget}")
         off = self.pos
         fault = self.plan.get(seq)
+        if self.pos in self.pauses and not self.dead:
+            self.pauses.discard(self.pos)
+            self.paused += 1
+            self.log.append((seq, "readline", off, -1, 0, "pause"))
+            return b"" if self.rtype is None else self.rtype(b"")
         if self.dead:
             out = b""
         elif fault == "eof":
